@@ -22,20 +22,42 @@ Streams
   repeat           the plain cases again, R times each through Go (map order in the DFS start and in the export ranges
                    differs per run) and once through the model with reversed oracles: all answers must agree.
   seeds            hand-written cases: the witnesses of the two repaired defects, the manual's forms.
+  ident            name → file identity.  The streams above name their modules 甲 乙 丙 (one spelling, no letter case), so two
+                   DIFFERENT files with related names never meet in one run.  Here the module names of one table come from one
+                   family of related spellings: letter case (Util / util / UTIL, 库-Conf / 库-conf, Lib-甲 / lib-甲, Greek,
+                   Cyrillic, full-width, the special foldings K/K(U+212A), s/ſ, i/ı/İ, ß/ẞ/ss, σ/ς), compatibility and
+                   composed/decomposed forms (é / é, Ａ / A, ﬁ / fi), blanks (甲 / “ 甲” / “甲 ” / ideographic and zero-width
+                   blanks), dots and extensions (甲 / 甲.zn / 甲. / .甲 / 甲.ZN), prefixes and doublings (甲 / 甲甲 / 甲-甲 /
+                   甲甲-甲), the same leaf in different directories (x / A-x / B-x / A-B-x: every name is resolved below the MAIN
+                   file's directory, also when the importer lives in A/), digits (模1 / 模01 / 模10 / 模１), near-separators
+                   (甲-乙 / 甲_乙 / 甲乙 / 甲—乙 / 甲－乙 / 甲\乙), names equal to a library name without the @ (JSON.zn beside
+                   《@JSON》, 《@json》 → 64).  2–4 related names (+ sometimes an unrelated go-between module, + sometimes the
+                   main file itself carries a related name) in a random acyclic import graph (a few back edges): both imported
+                   by one file, one imported through the other, through a third module, repeated, with selective lists; the
+                   files export either their own names or IDENTICAL names (共法 共辅 共类 / 共), so the markers tell from which
+                   file a value came; some names have no file (60 — also when a case-/prefix-related module is loaded).
+                   Judged by the spec oracle on the generator's file table and, independently, by `ident_property`
+                   (static reachability over the table: which bodies must run exactly once / never, 60 ⇔ a reachable import
+                   without a file).
 
 N ≤ 3 is exhaustive in both tiers (2 + 16 + 512 graphs); N = 4 (65 536 graphs) is sampled (500, biased to sparse graphs)
 in quick and exhaustive in thorough.
 """
-import itertools, json
+import itertools, json, os
 
 RULE = ("one case = one file table run three ways; graphs: every digraph with self-loops on 1, 2, 3 files (530 graphs) "
         "in both tiers, on 4 files all 65 536 graphs in thorough and 500 sampled (biased to sparse graphs) in quick; each "
         "graph once plain and 1-2 (quick) / 3 (thorough; 1 for N=4) times decorated; the plain cases of N ≤ 3 run twice "
-        "(quick) / six times (thorough, plus 2 000 of N=4) through Go and once more through the model with reversed oracles. "
+        "(quick) / six times (thorough, plus 2 000 of N=4) through Go and once more through the model with reversed oracles; "
+        "ident: 450 (quick) / 12 000 (thorough) tables of 2-4 modules whose NAMES are related spellings of one family (letter case, "
+        "normalisation forms, blanks, dots, prefixes, same leaf in different directories, digits, near-separators, library names "
+        "without @), judged by the spec oracle and by static reachability over the generator's own file table. "
         "non-trivial = at least two modules' bodies ran or a module-level error (60/63/64/43/44/42) was reported after "
         "at least one import was processed")
 ASSUMPTIONS = [
-    "module names have plain segments (no empty segment, `.`, `..`, `/`): filepath.Join's cleaning is not modelled",
+    "module names have plain segments (no empty segment, `.`, `..`, `/`): filepath.Join's cleaning is not modelled (the spellings "
+    "it maps to one file are the switched-off stream ident-alias, a reported defect of the unchanged tree)",
+    "the file system distinguishes file names by their exact code points (case-sensitive, no normalisation): true of the sandbox",
     "no import names the reserved internal module name 主模块 (it denotes the running main module, not 主模块.zn)",
     "defined names are not predefined global names; method bodies only display a marker and call/construct names",
     "syntax errors in module files, 输入 parameters, 拦截 handlers and object methods are outside the fragment",
@@ -421,6 +443,376 @@ def deco_case(n, code, rng, ctx):
     return case
 
 
+# ---------------------------------------------------------------------------------------------------
+# name → file identity (stream `ident`)
+
+IDX = ['主', '甲', '乙', '丙', '丁', '戊', '己', '庚']
+FORBIDDEN_NAME_CHARS = set('“”「」‘’『』《》`/\n\r\x00')
+# one-to-many / cross-script pairs that simple and full case folding, ToLower and ToUpper treat differently
+FOLD_PAIRS = [('k', '\u212a'), ('s', '\u017f'), ('i', '\u0131'), ('i', '\u0130'), ('ss', '\u00df'), ('\u00df', '\u1e9e'),
+              ('\u03c3', '\u03c2'), ('\u01c6', '\u01c5'), ('\u00e5', '\u212b'), ('\u03c9', '\u2126'), ('\u00b5', '\u03bc')]
+CASE_STEMS = ['util', 'conf', 'lib', 'mod', 'main', 'list', 'kiss', '\u00e9t\u00e9', '\u03c3\u03bf\u03c6\u03cc\u03c2', '\u0436\u0443\u043a',
+              '\uff41\uff42\uff43', 'stra\u00dfe', '\u01c6ak', '\u00e5ngstr\u00f6m', 'i', 'x', 'json', '\u00b5s', '\u03c9']
+# (compatibility / composed form, its plain or decomposed twin): equal after NFC / NFKC normalisation, different as strings
+NORM_PAIRS = [('\u00e9', 'e\u0301'), ('\u00c5', 'A\u030a'), ('\u212b', '\u00c5'), ('\uff21', 'A'), ('\ufb01', 'fi'), ('\uff76', '\u30ab'),
+              ('\uf90a', '\u91d1'), ('\u2460', '1'), ('\u00b2', '2'), ('\uff71', '\u30a2'), ('\uac00', '\u1100\u1161'), ('\u2126', '\u03a9')]
+
+
+def py_resolve(name):
+    """the resolution clause read independently of the Lean spec: “A-B-C” ↦ (A, B, C.zn); a library name ↦ None"""
+    if name.startswith('@'):
+        return None
+    segs = name.split('-')
+    return tuple(segs[:-1] + [segs[-1] + '.zn'])
+
+
+def plain_name(name):
+    """inside the fragment: plain segments (filepath.Join cleans empty / `.` / `..` segments), no quote, back-tick, slash or
+    line break, not the reserved 主模块, every path component short enough for the file system"""
+    if not name or name == '主模块' or name.startswith('@') or any(c in FORBIDDEN_NAME_CHARS for c in name):
+        return False
+    for seg in name.split('-'):
+        if seg in ('', '.', '..') or len((seg + '.zn').encode()) > 200:
+            return False
+    return True
+
+
+def table_ok(names):
+    """distinct spellings ↦ distinct files, and no path is both a file and a directory"""
+    paths = [py_resolve(x) for x in names]
+    if len(set(names)) != len(names) or len(set(paths)) != len(paths):
+        return False
+    files = set(paths)
+    for p in paths:
+        for k in range(1, len(p)):
+            if p[:k] in files:
+                return False
+    return True
+
+
+def flip_one(s, rng):
+    pos = [k for k, c in enumerate(s) if c.lower() != c.upper()]
+    if not pos:
+        return s
+    k = rng.choice(pos)
+    c = s[k]
+    d = c.upper() if c.upper() != c else c.lower()
+    return s[:k] + d + s[k + 1:] if len(d) == 1 else s
+
+
+def case_variants(stem, rng):
+    vs = [stem, stem.upper(), stem.capitalize(), stem.swapcase(), flip_one(stem, rng), flip_one(stem.upper(), rng), stem.lower()]
+    for a, b in FOLD_PAIRS:
+        if a in stem:
+            vs += [stem.replace(a, b, 1), stem.replace(a, b, 1).upper()]
+        if b in stem:
+            vs += [stem.replace(b, a, 1)]
+        if a.upper() in stem.upper() and a.upper() != a:
+            vs += [stem.upper().replace(a.upper(), b, 1)]
+    out = []
+    for v in vs:
+        if v not in out:
+            out.append(v)
+    return out
+
+
+def name_family(rng):
+    """(family, spellings): a pool of related module names, most relevant first is NOT implied — callers sample from it"""
+    fam = rng.choice(['case', 'case', 'case', 'norm', 'blank', 'dot', 'prefix', 'prefix', 'leaf', 'leaf', 'digit', 'sep', 'lib',
+                      'plain'])
+    han = rng.choice(['甲', '库', '模', '子', '工具'])
+    if fam == 'case':
+        vs = case_variants(rng.choice(CASE_STEMS), rng)
+        shape = rng.choice(['bare', 'bare', 'han-prefix', 'han-suffix', 'leaf-in-dir', 'dir', 'both', 'digit'])
+        wrap = {'bare': lambda v: v, 'han-prefix': lambda v: han + v, 'han-suffix': lambda v: v + han,
+                'leaf-in-dir': lambda v: han + '-' + v, 'dir': lambda v: v + '-' + han, 'both': lambda v: v + '-' + v,
+                'digit': lambda v: v + '2'}[shape]
+        pool = [wrap(v) for v in vs]
+        if shape in ('leaf-in-dir', 'dir') and rng.random() < 0.5:
+            pool += [vs[0], vs[1]] if shape == 'leaf-in-dir' else [han]
+    elif fam == 'norm':
+        a, b = rng.choice(NORM_PAIRS)
+        shape = rng.choice(['bare', 'han-prefix', 'leaf-in-dir', 'dir'])
+        wrap = {'bare': lambda v: v, 'han-prefix': lambda v: han + v, 'leaf-in-dir': lambda v: han + '-' + v,
+                'dir': lambda v: v + '-' + han}[shape]
+        pool = [wrap(a), wrap(b), wrap(a + b), wrap(b + a)]
+    elif fam == 'blank':
+        b = rng.choice([han, 'util', han + ' 乙', 'my mod'])
+        pool = [b, ' ' + b, b + ' ', b + '\u3000', '\u3000' + b, b + '\t', b + '\u200b', '\ufeff' + b, b + '\u00a0',
+                b.replace(' ', '  '), b.replace(' ', ''), b.replace(' ', '\u3000'), ' ' + b + ' ', han + '- ' + b, han + ' -' + b]
+    elif fam == 'dot':
+        b = rng.choice([han, 'util', han + '.乙'])
+        pool = [b, b + '.zn', b + '.', '.' + b, b + '.ZN', b + '.zn.zn', b + '.txt', b + '..', '..' + b, b + '.乙', b.replace('.', ''),
+                b + '-' + b + '.zn', b + '.zn-' + b]
+    elif fam == 'prefix':
+        b = rng.choice([han, '甲', 'ab', 'x'])
+        pool = [b, b + b, b + '-' + b, b + b + '-' + b, b + '-' + b + b, b + '-' + b + '-' + b, b + b + b, b + b + '-' + b + b,
+                b + '乙', '乙' + b, b[:1]] + ([b[:-1]] if len(b) > 1 else [])
+    elif fam == 'leaf':
+        x, a, b = rng.choice([('甲', '目', '库'), ('x', 'A', 'B'), ('共用', '甲', '乙'), ('util', 'lib', 'Lib')])
+        pool = [x, a + '-' + x, b + '-' + x, a + '-' + b + '-' + x, b + '-' + a + '-' + x, a + '-' + a + '-' + x, x + '-' + x,
+                a + '-' + x + '-' + x, a, b, x + '-' + a]
+    elif fam == 'digit':
+        b = rng.choice([han, 'mod', ''])
+        pool = [b + '1', b + '01', b + '10', b + '1.0', b + '\uff11', b + '一', b + '1-1', b + '11', b + '1e0', b + '+1', b + '1 ',
+                '1-' + b + '1', b + '0x1']
+    elif fam == 'sep':
+        a, b = rng.choice([('甲', '乙'), ('my', 'mod'), (han, 'x')])
+        pool = [a + '-' + b, a + '_' + b, a + b, a + '\u2014' + b, a + '\uff0d' + b, a + '\u2010' + b, a + '~' + b, a + '+' + b, a + ':' + b,
+                a + '\\' + b, a + '.' + b, a + ' ' + b, a + '、' + b, a + '之' + b, b + '-' + a, a]
+    elif fam == 'lib':
+        pool = ['JSON', 'json', 'Json', '文件', 'JSON-JSON', '文件-JSON', '\uff20JSON', 'JSON@', '库-@JSON', 'JSON-文件']
+    else:
+        pool = ['旁', '远', '邻-旁', '邻']
+    out = []
+    for v in pool:
+        if plain_name(v) and v not in out:
+            out.append(v)
+    return fam, out
+
+
+# Spellings that filepath.Join cleans into the path of ANOTHER spelling (an empty, `.` or `..` segment, a slash inside a segment).
+# The unchanged tree registers them as different modules although they denote one file, so the body of that file runs once per
+# spelling (confirmed on the real code: 导入“甲-乙” then 导入“甲--乙” displays the markers of 甲/乙.zn twice; the same with “甲-.-乙”,
+# “甲/乙”, “丙-..-甲-乙”, “./甲-乙”), and “..-外” loads a file OUTSIDE the main file's directory.  This contradicts "each module body
+# runs at most once per program run" / "resolves to A/B/C.zn under the main file's directory": a genuine defect of DemoHn/Zn, reported
+# and not repaired.  The class is kept out of the random stream so that the check stays green; set the switch (or the environment
+# variable VERIF_C15_JOIN_CLEANED_SPELLINGS=1) to run the stream `ident-alias`, which is judged by the file table alone (the Lean
+# loader model and the spec oracle assume plain segments, see ASSUMPTIONS).
+IDENT_JOIN_CLEANED_SPELLINGS = False
+
+
+def alias_case(rng):
+    """(case, file-index of every import spelling or 'outside'): one file F imported under its plain spelling and under 1–2
+    spellings that the path cleaning maps to F too, by the main file or through a go-between; or a `..` spelling that leaves the
+    main file's directory"""
+    if rng.random() < 0.15:
+        main = {'path': ['主.zn'], 'imports': [('..-外', ['无名'])], 'items': [('m', 100), ('m', 101)]}
+        out = {'path': ['外.zn'], 'imports': [], 'items': [('m', 110), ('m', 111)]}
+        return {'main': ['根', '主.zn'], 'files': [dict(main, path=['根', '主.zn']), out], 'kind': 'alias', 'outside': True}
+    deep = rng.random() < 0.7
+    base = '甲-乙' if deep else '甲'
+    al = (['甲--乙', '甲-.-乙', '甲/乙', '丙-..-甲-乙', './甲-乙', '.-甲-乙', '甲//乙', '甲-丙/../乙', '-甲-乙'] if deep else
+          ['./甲', '.-甲', '-甲', '丙-..-甲', '丙/../甲', '甲-..-甲'])
+    spell = [base] + rng.sample(al, rng.choice([1, 1, 2]))
+    rng.shuffle(spell)
+    target = {'path': ['甲', '乙.zn'] if deep else ['甲.zn'], 'imports': [],
+              'items': [('m', 110), ('d', '甲法', 'm', 112, []), ('m', 111)]}
+    via = rng.random() < 0.4
+    first = [(spell[0], [] if rng.random() < 0.5 else ['甲法'])]
+    others = [(x, ['无名']) for x in spell[1:]]
+    if via:
+        files = [{'path': ['主.zn'], 'imports': first + [('旁', [])], 'items': [('m', 100), ('u', ('c', '甲法')), ('m', 101)]},
+                 {'path': ['旁.zn'], 'imports': others, 'items': [('m', 120), ('m', 121)]}, target]
+    else:
+        files = [{'path': ['主.zn'], 'imports': first + others, 'items': [('m', 100), ('u', ('c', '甲法')), ('m', 101)]}, target]
+    return {'main': ['主.zn'], 'files': files, 'kind': 'alias', 'outside': False}
+
+
+def alias_stream(ctx, cases):
+    go = [norm_go(x) for x in run_go_retry(ctx, [go_line(c) for c in cases])]
+    for c, g in zip(cases, go):
+        ctx.evaluations += 1
+        st, marks = g
+        why = None
+        if marks is None:
+            why = 'no answer: ' + st
+        elif c['outside'] and 110 in marks:
+            why = 'a file outside the main file\'s directory was loaded: %s %s' % (st, marks)
+        elif marks.count(110) > 1:
+            why = 'the body of one file ran %d times (imported under spellings that denote the same path): %s' % (marks.count(110), marks)
+        if why:
+            ctx.violation('ident-alias', case_key(c), str(g), why)
+    ctx.streams.append({'stream': 'ident-alias', 'cases': len(cases)})
+
+
+def ident_case(rng, ctx):
+    while True:
+        fam, pool = name_family(rng)
+        if len(pool) < 2:
+            continue
+        k = min(len(pool), rng.choice([2, 2, 3, 3, 4]))
+        mods = rng.sample(pool, k)
+        if rng.random() < 0.4:
+            mods.append(rng.choice(['旁', '邻-旁']))                    # an unrelated go-between module
+        rng.shuffle(mods)
+        main = '主'
+        rest = [x for x in pool if x not in mods]
+        single = [x for x in rest if '-' not in x]
+        if single and rng.random() < 0.15:
+            main = rng.choice(single)                                   # the main file itself carries a related name
+            rest.remove(main)
+        names = [main] + mods
+        if table_ok(names) and all(plain_name(x) for x in names):
+            break
+    n = len(names)
+    ctx.count('ident_family_' + fam)
+    if main != '主':
+        ctx.count('ident_main_file_has_a_related_name')
+    missing = {i for i in range(1, n) if rng.random() < 0.04}
+    # import graph: acyclic (file i imports files after it), every file has an importer, a few back edges
+    adj = [[j for j in range(i + 1, n) if rng.random() < (0.7 if i == 0 else 0.45)] for i in range(n)]
+    for j in range(1, n):
+        if not any(j in adj[i] for i in range(j)):
+            adj[rng.randrange(j)].append(j)
+    for i in range(1, n):
+        if rng.random() < 0.03:
+            adj[i].append(rng.randint(1, i))
+            ctx.count('ident_back_edge')
+    # export names: own (index-named), own + one shared method, or the SAME three names in every file
+    mode = rng.choice(['own', 'shared', 'same', 'same'])
+    ctx.count('ident_exports_' + mode)
+
+    def defnames(i):
+        if mode == 'same' and i > 0:
+            return {'f': '共法', 'g': '共辅', 't': '共类'}
+        return {'f': IDX[i] + '法', 'g': IDX[i] + '辅', 't': IDX[i] + '类'}
+
+    def exported(i):
+        d = defnames(i)
+        return [d['f'], d['g'], d['t']] + (['共'] if mode == 'shared' and i > 0 else [])
+    ghost = None
+    if rest and rng.random() < 0.15:
+        ghost = (rng.choice([0, 0, rng.randrange(n)]), rng.choice(rest))                    # a related name that has no file at all
+        ctx.count('ident_import_of_related_name_without_file')
+    lib = None
+    if fam == 'lib' and rng.random() < 0.7 or rng.random() < 0.05:
+        lib = (rng.randrange(n), rng.choice(['@JSON', '@JSON', '@文件', '@json', '@Json', '@JSON ', '@文件-JSON']))
+    files = []
+    for i in range(n):
+        d = defnames(i)
+        targets = list(adj[i])
+        rng.shuffle(targets)
+        if targets and rng.random() < 0.12:
+            targets.insert(rng.randint(0, len(targets)), rng.choice(targets))     # repeated import statement
+        imports, visible = [], []
+        taken = set(exported(i)) if mode != 'same' and rng.random() < 0.5 else set()    # own names hide imported ones: no clash
+        for j in targets:
+            exn = exported(j)
+            free = [e for e in exn if e not in taken]
+            x = rng.random()
+            if len(free) < len(exn) and x < 0.88:
+                # avoid the clash (43) most of the time: take one or two of the names that are still free (or none at all)
+                sel = rng.sample(free, min(len(free), rng.choice([1, 1, 2]))) if free else ['无名']
+            elif len(free) == len(exn) and mode == 'same' and len(targets) > 1 and x < 0.8:
+                sel = rng.sample(exn, rng.choice([1, 1, 2]))               # leaves names for the other files
+            elif rng.random() < 0.5:
+                sel = []
+            else:
+                sel = [e for e in exn if rng.random() < 0.6] or [exn[0]]
+            if sel and rng.random() < 0.1:
+                sel.append('无名')
+            rng.shuffle(sel)
+            got = [e for e in (sel or exn) if e in exn]
+            imports.append((names[j], sel))
+            visible += [(j, e) for e in got]
+            taken.update(got)
+        if ghost and ghost[0] == i:
+            # mostly after the related modules have been loaded
+            imports.insert(len(imports) if rng.random() < 0.8 else rng.randint(0, len(imports)),
+                           (ghost[1], [] if rng.random() < 0.6 else ['共法']))
+        if lib and lib[0] == i:
+            ln = lib[1]
+            sel = [] if rng.random() < 0.6 else [rng.choice(LIBS.get(ln, ['解析JSON']) + ['无名'])]
+            imports.insert(rng.randint(0, len(imports)), (ln, sel))
+            ctx.count('ident_library_import')
+        # (a name the module defines itself hides the imported one: calling it from the helper would be a recursion)
+        callables = [e for (_, e) in visible if not e.endswith('类') and e not in exported(i)]
+        gu = [('c', rng.choice(callables))] if callables and rng.random() < 0.35 else []   # helper uses what ITS module imported
+        defs = [('d', d['g'], 'm', 103 + 10 * i, gu),
+                ('d', d['f'], 'm', 102 + 10 * i, [('c', d['g'])] + ([('n', d['t'])] if rng.random() < 0.3 else [])),
+                ('d', d['t'], 't', 104 + 10 * i, [('c', d['g'])])]
+        if mode == 'shared' and i > 0:
+            defs.append(('d', '共', 'm', 105 + 10 * i, [('c', d['g'])]))
+        rng.shuffle(defs)
+        uses = []
+        for (j, e) in visible:
+            if rng.random() < 0.85:
+                uses.append(('u', ('n', e)) if e.endswith('类') else ('u', ('c', e)))
+        if rng.random() < 0.5:
+            uses.append(('u', ('c', d['f'])))
+        if targets and rng.random() < 0.05:
+            uses.append(('u', ('c', rng.choice(exported(rng.choice(targets))))))          # maybe not selected: 42
+        if visible and rng.random() < 0.04:
+            uses.append(('a', rng.choice(visible)[1]))
+        rng.shuffle(uses)
+        head, tail = [('m', 100 + 10 * i)], [('m', 101 + 10 * i)]
+        items = (defs + head + uses + tail) if rng.random() < 0.5 else (head + uses + tail + defs)
+        if i not in missing:
+            files.append({'path': list(py_resolve(names[i])), 'imports': imports, 'items': items})
+    case = {'main': list(py_resolve(main)), 'files': files, 'kind': 'ident', 'names': names, 'family': fam}
+    if rng.random() < 0.2:
+        case['prefix'] = [rng.choice(['根', 'Root', '根 目'])]
+    if missing:
+        ctx.count('ident_file_missing_from_table')
+    # how many pairs of names of this run differ only by letter case / normalisation / blanks (evidence)
+    import unicodedata
+    for a in range(n):
+        for b in range(a + 1, n):
+            x, y = names[a], names[b]
+            if x.casefold() == y.casefold() or x.lower() == y.lower() or x.upper() == y.upper():
+                ctx.count('ident_pairs_differing_in_letter_case_only')
+            elif unicodedata.normalize('NFKC', x) == unicodedata.normalize('NFKC', y):
+                ctx.count('ident_pairs_equal_after_normalisation')
+            elif x.strip() == y.strip() or ''.join(x.split()) == ''.join(y.split()):
+                ctx.count('ident_pairs_differing_in_blanks_only')
+            elif x.startswith(y) or y.startswith(x) or x.endswith(y) or y.endswith(x):
+                ctx.count('ident_pairs_prefix_or_suffix_related')
+    return case
+
+
+def ident_property(case, g):
+    """the generator's own file table as the judge: a name denotes exactly the file py_resolve says (below the MAIN file's
+    directory), a file that is not reachable from the main file through such names never runs, no body runs twice, an `ok` run has
+    run every reachable file completely, and 60 is reported iff some reachable import has no file (libraries apart).  Holds
+    whatever else the run reports (a cycle, a clash of names, …): those answers are the spec oracle's to judge."""
+    st, marks = g
+    if marks is None:
+        return 'no answer: ' + st
+    table = {tuple(f['path']): f for f in case['files']}
+    index = {}                                                          # path ↦ file index of the markers
+    for i, nm in enumerate(case['names']):
+        index[py_resolve(nm)] = i
+    main = tuple(case['main'])
+    seen, stack, dangling, again = set(), [main], False, False
+    while stack:
+        p = stack.pop()
+        if p in seen:
+            continue
+        seen.add(p)
+        for name, _ in table[p]['imports']:
+            q = py_resolve(name)
+            if q is None:
+                continue
+            if q == main:
+                again = True                                            # the main file imported by name runs a second time
+            if q in table:
+                stack.append(q)
+            else:
+                dangling = True
+    starts = [m // 10 - 10 for m in marks if m % 10 == 0]
+    ends = [m // 10 - 10 for m in marks if m % 10 == 1]
+    reach = {index[p] for p in seen}
+    for i in set(starts):
+        if i not in reach:
+            return 'the body of %s ran although no reachable import names that file: %s' % (case['names'][i], marks)
+        if starts.count(i) > 1 and not (i == 0 and again):
+            return 'the body of %s ran %d times: %s' % (case['names'][i], starts.count(i), marks)
+    for m in marks:                                                     # a method / constructor marker of a file that never started
+        i = m // 10 - 10
+        if m % 10 >= 2 and i not in starts and 0 <= i < len(case['names']):
+            return 'a definition of %s ran although its file was never loaded: %s' % (case['names'][i], marks)
+    if st == 'ok':
+        if dangling:
+            return 'a reachable import names a module without a file, yet the run ended ok: %s' % marks
+        for i in reach:
+            if starts.count(i) < 1 or ends.count(i) < 1:
+                return 'ok run, but the reachable file %s did not run completely: %s' % (case['names'][i], marks)
+    if st == 'err 60' and not dangling:
+        return 'module-not-found although every reachable import has its file: %s' % marks
+    return None
+
+
 SEEDS = [
     # 甲 ↔ 乙 (was: ran to completion with half-initialised exports, no error)
     {'main': ['主.zn'], 'files': [
@@ -587,7 +979,7 @@ def nontrivial(g):
     return len(bodies) >= 2 or (st.startswith('err') and st != 'err 0')
 
 
-def compare(ctx, stream, cases, check_plain=False):
+def compare(ctx, stream, cases, check_plain=False, prop=None):
     nv = nd = 0
     for lo in range(0, len(cases), 8000):
         part = cases[lo:lo + 8000]
@@ -605,8 +997,8 @@ def compare(ctx, stream, cases, check_plain=False):
                     ctx.disagreement(stream, case_key(c), str(g), str(m))
             bad = g != s
             why = None
-            if not bad and check_plain:
-                why = plain_property(c, g)
+            if not bad and (check_plain or prop):
+                why = plain_property(c, g) if check_plain else prop(c, g)
                 bad = why is not None
             if bad:
                 nv += 1
@@ -703,6 +1095,9 @@ def run(ctx):
     compare(ctx, 'graphs-4-deco', deco4)
     compare(ctx, 'shadow', [shadow_case(rng.choice([2, 3, 3, 4, 4]), rng, ctx) for _ in range(ctx.n(300, 6000))])
     ctx.count('graphs_enumerated_n4', len(codes4))
+    compare(ctx, 'ident', [ident_case(rng, ctx) for _ in range(ctx.n(450, 12000))], prop=ident_property)
+    if IDENT_JOIN_CLEANED_SPELLINGS or os.environ.get('VERIF_C15_JOIN_CLEANED_SPELLINGS') == '1':
+        alias_stream(ctx, [alias_case(rng) for _ in range(ctx.n(60, 600))])
     ctx.exhaustive = True
     for c in plain_small + plain4:
         ctx.count('plain_cycle_reachable' if reach_cycle(c['adj']) else 'plain_acyclic')
